@@ -165,7 +165,7 @@ def run_drivers(hdir, scn_path):
         if focus == "C04":      # C04 takes the tables as given: one entity, one index (as bin/props/indexing.py)
             readable = [l for l in readable if len(set(l["ex"])) == len(l["ex"])
                         and len({(x["ex"], x["a"]) for x in l["as"]}) == len(l["as"])
-                        and len({(x["ex"], x["ni"]) for x in l["ins"]}) == len(l["ins"])]
+                        and len({(x["ex"], x["ni"], x["nx"], x["kind"]) for x in l["ins"]}) == len(l["ins"])]
         elif len(readable) < len(lines):
             sigs["trace:unreadable-tables"] += len(lines) - len(readable)
         for tags in tlc_trace(focus, write(tr + ".clean", readable)).values():
